@@ -36,8 +36,52 @@ fn opt<T, F: Fn(&T) -> String>(o: Option<T>, f: F) -> String { match o { Some(v)
 fn pu64(s: &str) -> u64 { u64::from_str_radix(s, 16).unwrap() }
 fn pi64(s: &str) -> i64 { if let Some(r) = s.strip_prefix('-') { (-(i128::from_str_radix(r, 16).unwrap())) as i64 } else { i64::from_str_radix(s, 16).unwrap() } }
 
+macro_rules! scalar_ops {
+    ($big:ident, $parse:ident, $fmt:ident, $a:expr, $ty:ty, $sv:expr, $op:expr, $side:expr) => {{
+        let x = $parse($a);
+        let s: $ty = $sv;
+        match ($op, $side) {
+            ("add", "r") => $fmt(&(x + s)), ("add", "l") => $fmt(&(s + x)),
+            ("sub", "r") => $fmt(&(x - s)), ("sub", "l") => $fmt(&(s - x)),
+            ("mul", "r") => $fmt(&(x * s)), ("mul", "l") => $fmt(&(s * x)),
+            ("div", "r") => $fmt(&(x / s)), ("div", "l") => $fmt(&(s / x)),
+            ("rem", "r") => $fmt(&(x % s)), ("rem", "l") => $fmt(&(s % x)),
+            ("add", "a") => { let mut y = x; y += s; $fmt(&y) }
+            ("sub", "a") => { let mut y = x; y -= s; $fmt(&y) }
+            ("mul", "a") => { let mut y = x; y *= s; $fmt(&y) }
+            ("div", "a") => { let mut y = x; y /= s; $fmt(&y) }
+            ("rem", "a") => { let mut y = x; y %= s; $fmt(&y) }
+            ("add", "rr") => $fmt(&(&x + &s)), ("sub", "rr") => $fmt(&(&x - &s)), ("mul", "rr") => $fmt(&(&x * &s)),
+            ("div", "rr") => $fmt(&(&x / &s)), ("rem", "rr") => $fmt(&(&x % &s)),
+            _ => "UNKNOWN-SC".to_string(),
+        }
+    }};
+}
+fn pi128(s: &str) -> i128 { if let Some(r) = s.strip_prefix('-') { (u128::from_str_radix(r, 16).unwrap() as i128).wrapping_neg() } else { u128::from_str_radix(s, 16).unwrap() as i128 } }
+fn sc(a: &[&str]) -> String {
+    // sc <u|i> <scalar type> <op> <side: r|l|a|rr> <big> <scalar>
+    let (big, ty, op, side, x, s) = (a[1], a[2], a[3], a[4], a[5], a[6]);
+    match (big, ty) {
+        ("u", "u32") => scalar_ops!(BigUint, pu, fu, x, u32, pu64(s) as u32, op, side),
+        ("u", "u64") => scalar_ops!(BigUint, pu, fu, x, u64, pu64(s), op, side),
+        ("u", "u128") => scalar_ops!(BigUint, pu, fu, x, u128, u128::from_str_radix(s, 16).unwrap(), op, side),
+        ("u", "usize") => scalar_ops!(BigUint, pu, fu, x, usize, pu64(s) as usize, op, side),
+        ("u", "u8") => scalar_ops!(BigUint, pu, fu, x, u8, pu64(s) as u8, op, side),
+        ("i", "u32") => scalar_ops!(BigInt, pi, fi, x, u32, pu64(s) as u32, op, side),
+        ("i", "u64") => scalar_ops!(BigInt, pi, fi, x, u64, pu64(s), op, side),
+        ("i", "u128") => scalar_ops!(BigInt, pi, fi, x, u128, u128::from_str_radix(s, 16).unwrap(), op, side),
+        ("i", "i32") => scalar_ops!(BigInt, pi, fi, x, i32, pi128(s) as i32, op, side),
+        ("i", "i64") => scalar_ops!(BigInt, pi, fi, x, i64, pi128(s) as i64, op, side),
+        ("i", "i128") => scalar_ops!(BigInt, pi, fi, x, i128, pi128(s), op, side),
+        ("i", "i8") => scalar_ops!(BigInt, pi, fi, x, i8, pi128(s) as i8, op, side),
+        ("i", "isize") => scalar_ops!(BigInt, pi, fi, x, isize, pi128(s) as isize, op, side),
+        _ => "UNKNOWN-SC-TYPE".to_string(),
+    }
+}
+
 fn run(a: &[&str]) -> String {
     let op = a[0];
+    if op == "sc" { return sc(a); }
     match op {
         // ---- BigUint arithmetic
         "uadd" => fu(&(&pu(a[1]) + &pu(a[2]))),
@@ -74,6 +118,13 @@ fn run(a: &[&str]) -> String {
         "umodinv" => opt(pu(a[1]).modinv(&pu(a[2])), fu),
         "upow" => fu(&pu(a[1]).pow(pu64(a[2]) as u32)),
         "upow_big" => fu(&Pow::pow(pu(a[1]), &pu(a[2]))),
+        "upow_big_rv" => fu(&Pow::pow(&pu(a[1]), pu(a[2]))),
+        "upow_big_rr" => fu(&Pow::pow(&pu(a[1]), &pu(a[2]))),
+        "ipow_big" => fi(&Pow::pow(pi(a[1]), pu(a[2]))),
+        "ipow_big_rv" => fi(&Pow::pow(&pi(a[1]), pu(a[2]))),
+        "ipow_u8" => fi(&Pow::pow(pi(a[1]), pu64(a[2]) as u8)),
+        "ipow_u128" => fi(&Pow::pow(&pi(a[1]), u128::from_str_radix(a[2], 16).unwrap())),
+        "upow_u64" => fu(&Pow::pow(pu(a[1]), pu64(a[2]))),
         "ugcd" => fu(&pu(a[1]).gcd(&pu(a[2]))),
         "ulcm" => fu(&pu(a[1]).lcm(&pu(a[2]))),
         "usqrt" => fu(&pu(a[1]).sqrt()),
@@ -102,6 +153,8 @@ fn run(a: &[&str]) -> String {
         "uto_u32" => format!("{:?}", pu(a[1]).to_u32()),
         "uto_f64" => format!("{:016x}", pu(a[1]).to_f64().unwrap().to_bits()),
         "uto_f32" => format!("{:08x}", pu(a[1]).to_f32().unwrap().to_bits()),
+        "ufrom_f32" => opt(BigUint::from_f32(f32::from_bits(pu64(a[1]) as u32)), fu),
+        "ifrom_f32" => opt(BigInt::from_f32(f32::from_bits(pu64(a[1]) as u32)), fi),
         "ufrom_f64" => opt(BigUint::from_f64(f64::from_bits(pu64(a[1]))), fu),
         "ifrom_f64" => opt(BigInt::from_f64(f64::from_bits(pu64(a[1]))), fi),
         "ufrom_u64" => fu(&BigUint::from(pu64(a[1]))),
